@@ -300,16 +300,11 @@ def registration_tuple_roles(idx: ProgramIndex) -> Dict[str, int]:
     for n in walk_no_nested(rp.node):
         if isinstance(n, ast.Assign) and len(n.targets) == 1 and isinstance(n.targets[0], ast.Subscript) and chain(n.targets[0].value) == "self._priors" and isinstance(n.value, ast.Tuple):
             names = [e.id if isinstance(e, ast.Name) else None for e in n.value.elts]
-            pr = rp.params
-            # the prior is parameter `prior`; the closure is the 2nd stored element that is derived from param_or_closure
-            if "prior" in names:
-                out = {"prior": names.index("prior")}
-                for i, nm in enumerate(names):
-                    if nm is not None and "closure" in nm and "setting" not in nm and "inv" not in nm:
-                        out["closure"] = i
-                        break
-                if "closure" in out:
-                    return out
+            pr = rp.params  # (self, name, prior, param_or_closure, setting_closure)
+            if len(pr) >= 5 and len(names) == 3 and pr[2] in names and pr[4] in names:
+                rest = [i for i in range(3) if i not in (names.index(pr[2]), names.index(pr[4]))]
+                if len(rest) == 1:
+                    return {"prior": names.index(pr[2]), "closure": rest[0], "setting": names.index(pr[4])}
     raise AnalysisError("Module.register_prior: the stored registration tuple was not recognised")
 
 
